@@ -286,17 +286,19 @@ Record c10case := {
   i_rates : list (Z * list Q);
   i_energy : list (Z * Q);             (* session id, ev.energy_delivered *)
   i_warn : list (nat * bool);          (* iteration, "Invalid schedule provided" warning issued *)
-  i_check_warn : bool                  (* false when a feasibility decision is within 1e-6 of its threshold (float-ambiguous) *)
+  i_check_warn : bool;                 (* false when a feasibility decision is within 1e-6 of its threshold (float-ambiguous) *)
+  i_crashed : bool                     (* the implementation raised *)
 }.
 
 Definition Qclose_list (a b : list Q) : bool := list_eqb Qclose a b.
 
 Definition check_c10 (c : c10case) : bool :=
   match simulate (sched_of (k_sched c)) (k_stations c) (k_config c) with
-  | None => false
+  | None => i_crashed c
   | Some st =>
       let n := horizon (cf_sessions (k_config c)) in
-      Nat.eqb n (i_iterations c)
+      negb (i_crashed c)
+      && Nat.eqb n (i_iterations c)
       && Nat.eqb (List.length (i_pilots c)) (List.length (k_stations c))
       && forallb (fun p => match out_pilots n st (fst p) with Some r => Qclose_list r (snd p) | None => false end) (i_pilots c)
       && Nat.eqb (List.length (i_rates c)) (List.length (k_stations c))
